@@ -7,6 +7,7 @@ diagnostics are reduced to the message *kinds* the specifications use); TLC judg
 from __future__ import annotations
 
 import ast
+import keyword
 import re
 import warnings
 from typing import Any
@@ -50,11 +51,25 @@ def atom_src(v: str) -> str:
         raise core.MachineryError(f"codec: unknown value atom {v!r}")
 
 
+# non-ASCII characters travel through TLA+/JSON as named one-element tokens
+NAMED_CHARS = {
+    "<ar0>": "\u0660",  # ARABIC-INDIC DIGIT ZERO: a Unicode decimal digit (isdigit, int() = 0)
+    "<sup2>": "\u00b2",  # SUPERSCRIPT TWO: isdigit() but not decimal (int() raises)
+}
+
+
+def text_of(chars: list[str]) -> str:
+    out = []
+    for ch in chars:
+        ch = NAMED_CHARS.get(ch, ch)
+        if len(ch) != 1:
+            raise core.MachineryError(f"codec: template is not a sequence of characters: {chars!r}")
+        out.append(ch)
+    return "".join(out)
+
+
 def text_src(chars: list[str], kind: str = "str") -> str:
-    s = "".join(chars)
-    if any(len(ch) != 1 for ch in chars):
-        raise core.MachineryError(f"codec: template is not a sequence of characters: {chars!r}")
-    return ("b" if kind == "bytes" else "") + repr(s)
+    return ("b" if kind == "bytes" else "") + repr(text_of(chars))
 
 
 def percent_args_src(args: dict) -> str:
@@ -82,7 +97,15 @@ def percent_expr(case: dict) -> str:
 
 def format_expr(case: dict) -> str:
     parts = [atom_src(v) for v in case["pos"]]
-    parts += [f"{''.join(kw['name'])}={atom_src(kw['v'])}" for kw in case["kw"]]
+    spread = []
+    for kw in case["kw"]:
+        name = text_of(kw["name"])
+        if name.isascii() and name.isidentifier() and not keyword.iskeyword(name):
+            parts.append(f"{name}={atom_src(kw['v'])}")
+        else:  # a key that is no identifier (" 0 ", "+0", "0", ...) is spelled through a ** dict literal
+            spread.append(f"{name!r}: {atom_src(kw['v'])}")
+    if spread:
+        parts.append("**{" + ", ".join(spread) + "}")
     return f"{text_src(case['t'])}.format({', '.join(parts)})"
 
 
@@ -256,8 +279,13 @@ def observe_format_batch(batch: list[tuple[int, dict]]) -> list[dict]:
     out = []
     for (tid, case), expr, fails in zip(batch, exprs, per):
         pz = _visible(fails, "incompatible_call", format_kind, expr)
-        _, errors = parse_format_string("".join(case["t"]))
-        pz["parse"] = [[pos, format_kind(msg)] for pos, msg in errors]
+        try:
+            _, errors = parse_format_string(text_of(case["t"]))
+            pz["parse"] = [[pos, format_kind(msg)] for pos, msg in errors]
+        except core.MachineryError:
+            raise
+        except Exception:  # the parser itself raised: recorded, TLC judges
+            pz["parse"] = [[0, "CRASH"]]
         out.append({"tid": tid, "case": case, "expr": expr, "cpy": real_eval(expr), "pz": pz})
     return out
 
